@@ -73,6 +73,7 @@ ASSUMPTIONS = [
 ]
 EXPLORER_OPTS = {"timeout_ms": 60000, "max_paths": 20000}
 BUDGET_S = {"quick": 600, "thorough": 2300}
+MAXTASKS = 1          # a fresh worker process per task: no process-wide state of the repo survives from one case to the next
 TOL = 1e-9
 # tolerance only where concrete float accumulation is involved (e.g. nine times fl(1/9)); everything else is exact
 TOLS = {k: TOL for k in ("e2e_mapping_matrix", "e2e_unique_decoded", "rows_sum_to_one", "unique_equals_dense", "mesh_centres", "sub_fraction")}
@@ -89,6 +90,8 @@ VERTS = {
     "v6": [[0.125, 0.125], [1.125, 0.625], [2.125, 0.125], [0.375, 1.125], [1.125, 3.125], [2.125, 1.125]],
     "v7": [[-1.0, -1.5], [1.5, -1.0], [0.25, 0.125], [-1.25, 1.0], [1.0, 1.5], [2.5, 0.25], [-0.25, 2.5]],
     "v4": [[1.0, 0.0], [0.0, 0.25], [0.0, 2.0], [1.75, 1.5]],
+    "v5b": [[1.5, 0.0], [0.0, 0.5], [-0.5, 2.0], [1.0, 1.0], [2.5, 2.25]],
+    "v6b": [[0.0, 0.0], [0.25, 2.0], [1.0, 0.75], [2.0, -0.5], [2.25, 1.5], [3.0, 0.5]],
     "v9": [[0.0, 0.0], [0.0, 1.0], [0.125, 2.0], [1.0, 0.125], [1.125, 1.125], [1.0, 2.25], [2.0, 0.0], [2.25, 1.0], [2.0, 2.125]],
 }
 
@@ -541,37 +544,163 @@ def case_rect(ctx, mshape, sub, H, W, box, anchors, regions, mask=None, span=8.0
     hx.run_body(ctx, body_rect, inputs, kw, tol=TOLS, validate_every=8, groups=lambda k: "e2e" if k.startswith("e2e") else None)
 
 
-def body_neighbors(inp, **_):
-    """rectangular neighbour lists = 4-connectivity, symmetric (pure index code: the shape is the only input)"""
+def _in_child(fn):
+    """run fn() in a forked copy of this process and return its (picklable) result: every history of meshes is then evaluated on
+    the process image of a worker that has not built any mesh yet, so process-wide state (module-level caches) created by one
+    history cannot leak into the next path - the outcome depends on the history alone and reproduces in the replay process"""
+    import os
+    import pickle
+    r, w = os.pipe()
+    pid = os.fork()
+    if pid == 0:
+        code = 0
+        try:
+            os.close(r)
+            try:
+                data = pickle.dumps(("ok", fn()))
+            except BaseException as e:  # noqa
+                data = pickle.dumps(("err", type(e).__name__, str(e)[:300]))
+            with os.fdopen(w, "wb") as f:
+                f.write(data)
+        except BaseException:  # noqa
+            code = 1
+        finally:
+            os._exit(code)
+    os.close(w)
+    with os.fdopen(r, "rb") as f:
+        data = f.read()
+    os.waitpid(pid, 0)
+    if not data:
+        return hx.Raised("ChildCrashed")
+    out = pickle.loads(data)
+    if out[0] == "err":
+        return hx.Raised(out[1])
+    return out[1]
+
+
+def _nb_lists(nb):
+    arr, sizes = np.asarray(nb), np.asarray(nb.sizes)
+    return [[int(v) for v in row] for row in arr], [int(v) for v in sizes]
+
+
+VIAS = ("overlay", "mapper", "direct")
+
+
+def _rect_history(shapes, vias):
+    """build the meshes one after the other through public entry points and collect their neighbour lists"""
     import autoarray as aa
-    H, W = int(inp["shape"][0]), int(inp["shape"][1])
-    P = H * W
+    grid = np.array([[0.0, 0.0], [1.0, 2.0], [0.5, -1.0], [-0.75, 0.25]])
+    out = []
+    for (H, W), via in zip(shapes, vias):
+        if via == "overlay":
+            nb = aa.Mesh2DRectangular.overlay_grid(shape_native=(H, W), grid=grid).neighbors
+        elif via == "direct":
+            vals = aa.Grid2D.uniform(shape_native=(H, W), pixel_scales=(0.5, 0.25)).slim.array
+            nb = aa.Mesh2DRectangular(values=np.array(vals), shape_native=(H, W), pixel_scales=(0.5, 0.25)).neighbors
+        else:
+            m = aa.Mask2D(mask=np.array([[False, False], [False, False]]), pixel_scales=1.0)
+            mg = aa.mesh.Rectangular(shape=(H, W)).mapper_grids_from(mask=m, source_plane_data_grid=aa.Grid2DIrregular(values=grid), border_relocator=None)
+            mapper = aa.Mapper(mapper_grids=mg, over_sampler=aa.OverSamplerUniform(mask=m, sub_size=1), regularization=None)
+            nb = mapper.neighbors
+            nb2 = mapper.source_plane_mesh_grid.neighbors
+            if _nb_lists(nb) != _nb_lists(nb2):
+                raise AssertionError("mapper.neighbors differs from source_plane_mesh_grid.neighbors")
+        out.append(_nb_lists(nb))
+    return out
+
+
+def _adjacency_obligations(A, E, tag, lists, want):
+    """neighbour table (arr, sizes) of one mesh against the independently derived adjacency `want` (list of sorted lists)"""
+    P = len(want)
+    arr, sizes = lists
+    ok_shape = len(arr) == P and len(sizes) == P and all(0 <= sizes[k] <= len(arr[k]) for k in range(P))
+    A[tag + "_table_well_formed"], E[tag + "_table_well_formed"] = ok_shape, True
+    if not ok_shape:
+        return
+    got = [sorted(arr[k][: sizes[k]]) for k in range(P)]
+    A[tag + "_neighbors_equal_mesh_adjacency"], E[tag + "_neighbors_equal_mesh_adjacency"] = got, want
+    A[tag + "_neighbors_symmetric"] = all(0 <= j < P and k in got[j] for k in range(P) for j in got[k])
+    E[tag + "_neighbors_symmetric"] = True
+    A[tag + "_padding_is_minus_one"], E[tag + "_padding_is_minus_one"] = all(v == -1 for k in range(P) for v in arr[k][sizes[k]:]), True
+
+
+def body_rect_history(inp, vias, **_):
+    """every mesh of a history of rectangular meshes built in one process publishes the 4-connectivity of ITS OWN shape"""
+    shapes = [(int(h), int(w)) for (h, w) in inp["shapes"]]
+    res = _in_child(lambda: _rect_history(shapes, vias))
+    if isinstance(res, hx.Raised):
+        return {"history_built": res}, {"history_built": "no exception"}
     A, E = {}, {}
-    mesh = hx.attempt(lambda: aa.Mesh2DRectangular.overlay_grid(shape_native=(H, W), grid=np.array([[0.0, 0.0], [1.0, 2.0], [0.5, -1.0]])))
-    nb = mesh if isinstance(mesh, hx.Raised) else hx.attempt(lambda: (np.asarray(mesh.neighbors), np.asarray(mesh.neighbors.sizes)))
-    if isinstance(nb, hx.Raised):
-        return {"neighbors": nb}, {"neighbors": "no exception"}
-    arr, sizes = nb
-    A["neighbors_shape"], E["neighbors_shape"] = [list(arr.shape), list(sizes.shape)], [[P, 4], [P]]
-    if A["neighbors_shape"] != E["neighbors_shape"]:
-        return A, E
-    got = [sorted(int(v) for v in arr[k][: int(sizes[k])]) for k in range(P)]
-    want = [sorted(rr * W + cc for (rr, cc) in ((k // W - 1, k % W), (k // W + 1, k % W), (k // W, k % W - 1), (k // W, k % W + 1))
-                   if 0 <= rr < H and 0 <= cc < W) for k in range(P)]
-    A["neighbors_are_4_connectivity"], E["neighbors_are_4_connectivity"] = got, want
-    A["neighbors_symmetric"] = all(k in got[j] for k in range(P) for j in got[k] if 0 <= j < P)
-    E["neighbors_symmetric"] = True
-    A["padding_is_minus_one"] = all(int(v) == -1 for k in range(P) for v in arr[k][int(sizes[k]):])
-    E["padding_is_minus_one"] = True
+    for n, ((H, W), lists) in enumerate(zip(shapes, res)):
+        want = [sorted(rr * W + cc for (rr, cc) in ((k // W - 1, k % W), (k // W + 1, k % W), (k // W, k % W - 1), (k // W, k % W + 1))
+                       if 0 <= rr < H and 0 <= cc < W) for k in range(H * W)]
+        _adjacency_obligations(A, E, "mesh%d" % n, lists, want)
     return A, E
 
 
-def case_neighbors(ctx, lo, hi):
-    H, W = V.integer("H"), V.integer("W")
-    ctx.assume(z3.And(H.t >= lo, H.t <= hi, W.t >= lo, W.t <= hi))
-    Hc, Wc = ctx.concretize_int(H.t), ctx.concretize_int(W.t)
-    ctx.set_case(shape=[Hc, Wc])
-    hx.run_body(ctx, body_neighbors, {"shape": [Hc, Wc]}, {}, validate_every=0)
+def case_rect_history(ctx, L, lo, hi, vias, same_pixels=False):
+    """mesh shapes are solver integers in [lo, hi], concretised by forking (every history of L shapes; same_pixels: only histories
+    whose meshes all have the same number of pixels - the situation in which state shared between meshes would be confused)"""
+    hs = [(V.integer("H%d" % n), V.integer("W%d" % n)) for n in range(L)]
+    for (H, W) in hs:
+        ctx.assume(z3.And(H.t >= lo, H.t <= hi, W.t >= lo, W.t <= hi))
+    shapes = []
+    for n, (H, W) in enumerate(hs):
+        Hc = ctx.concretize_int(H.t)
+        if same_pixels and n > 0:
+            P0 = shapes[0][0] * shapes[0][1]
+            if P0 % Hc != 0 or not (lo <= P0 // Hc <= hi):
+                raise PathAbort()
+            ctx.assume(W.t == P0 // Hc)
+        Wc = ctx.concretize_int(W.t)
+        shapes.append([Hc, Wc])
+    ctx.set_case(shapes=shapes)
+    hx.run_body(ctx, body_rect_history, {"shapes": shapes}, {"vias": list(vias)}, validate_every=0)
+    ctx.twin()
+
+
+DEL_SETS = ["v4", "v5", "v5b", "v6", "v6b", "v7"]
+
+
+def _del_history(names, vias):
+    import autoarray as aa
+    out = []
+    for name, via in zip(names, vias):
+        mesh = aa.Mesh2DDelaunay(values=np.array(VERTS[name], dtype=float))
+        if via == "mapper":
+            m = aa.Mask2D(mask=np.array([[False, False]]), pixel_scales=1.0)
+            mg = aa.MapperGrids(mask=m, source_plane_data_grid=aa.Grid2DIrregular(values=np.array([[0.5, 0.5], [1.0, 1.0]])), source_plane_mesh_grid=mesh)
+            nb = aa.Mapper(mapper_grids=mg, over_sampler=aa.OverSamplerUniform(mask=m, sub_size=1), regularization=None).neighbors
+        else:
+            nb = mesh.neighbors
+        out.append(_nb_lists(nb))
+    return out
+
+
+def body_del_history(inp, vias, **_):
+    """every mesh of a history of Delaunay meshes publishes the edges of ITS OWN triangulation (triangulation: scipy, natively)"""
+    names = [DEL_SETS[int(k)] for k in inp["sets"]]
+    res = _in_child(lambda: _del_history(names, vias))
+    if isinstance(res, hx.Raised):
+        return {"history_built": res}, {"history_built": "no exception"}
+    A, E = {}, {}
+    for n, (name, lists) in enumerate(zip(names, res)):
+        P = len(VERTS[name])
+        want = [set() for _ in range(P)]
+        for (a, b, c) in _tri(name).simplices:
+            for (u, w) in ((a, b), (b, c), (a, c)):
+                want[int(u)].add(int(w))
+                want[int(w)].add(int(u))
+        _adjacency_obligations(A, E, "mesh%d" % n, lists, [sorted(w) for w in want])
+    return A, E
+
+
+def case_del_history(ctx, L, vias):
+    ks = [z3.Int("set%d" % n) for n in range(L)]
+    ctx.assume(z3.And(*[z3.And(k >= 0, k < len(DEL_SETS)) for k in ks]))
+    sets = [ctx.concretize_int(k) for k in ks]
+    ctx.set_case(sets=sets)
+    hx.run_body(ctx, body_del_history, {"sets": sets}, {"vias": list(vias)}, validate_every=0)
     ctx.twin()
 
 
@@ -850,7 +979,7 @@ def case_tables(ctx, sub, K, P, sizes, mode="fork", distinct=False):
         hx.run_body(ctx, body_tables, {"idx": idx.astype(int), "w": w}, kw, tol=None, validate_every=64)
 
 
-BODIES = {"case_rect": body_rect, "case_del": body_del, "case_tables": body_tables, "case_overlay": body_overlay, "case_neighbors": body_neighbors}
+BODIES = {"case_rect": body_rect, "case_del": body_del, "case_tables": body_tables, "case_overlay": body_overlay, "case_rect_history": body_rect_history, "case_del_history": body_del_history}
 
 
 
@@ -930,8 +1059,14 @@ def cases(tier):
         ]
     for c, o in tb:
         out.append(("case_tables", c, o) if o else ("case_tables", c))
-    # --- by-product (no real-valued input exists): rectangular neighbour lists for every shape in the range, shapes by forking
-    out.append(("case_neighbors", {"lo": 3, "hi": 6 if q else 10}))
+    # --- neighbour lists: histories of meshes built one after the other in one process (shapes / vertex sets = solver integers
+    #     concretised by forking); each mesh must publish the adjacency of its own geometry
+    out.append(("case_rect_history", {"L": 2, "lo": 3, "hi": 6 if q else 8, "vias": ["overlay", "mapper"]}, {} if q else {"split": 3}))
+    out.append(("case_rect_history", {"L": 3, "lo": 3, "hi": 8 if q else 10, "vias": ["mapper", "direct", "overlay"], "same_pixels": True}))
+    out.append(("case_rect_history", {"L": 1, "lo": 3, "hi": 8 if q else 12, "vias": ["direct"]}))
+    out.append(("case_del_history", {"L": 2, "vias": ["direct", "mapper"]}))
+    if not q:
+        out.append(("case_del_history", {"L": 3, "vias": ["mapper", "direct", "direct"]}))
     return out
 
 
@@ -941,7 +1076,7 @@ def replay(cand):
     case = dict(cand["case"])
     if "mask" in case:
         kw["mask"] = case["mask"]
-    for k in ("mshape", "anchors", "regions", "plan", "span", "mode", "distinct", "lo", "hi"):
+    for k in ("mshape", "anchors", "regions", "plan", "span", "mode", "distinct", "lo", "hi", "L", "same_pixels"):
         kw.pop(k, None)
     if cand["case_fn"] == "case_rect":
         kw.pop("ext", None)
